@@ -718,6 +718,43 @@ pub fn e3_dynspace(ctx: &Ctx, name: &str, st: &mut Local, f: Sink) {
             }
         }
 
+        // (h) the header starts with "repeat previous" (code 16) although there is no previous length:
+        // RFC 1951 leaves it undefined, zlib rejects it, the subject takes the previous length as 0
+        {
+            let lead = ll.iter().take_while(|&&l| l == 0).count();
+            if lead >= 3 {
+                for first in [3usize, 6] {
+                    if first > lead {
+                        continue;
+                    }
+                    let mut items: Vec<(u8, u8)> = vec![(16, first as u8)];
+                    let mut rest = ll[first..].to_vec();
+                    rest.extend_from_slice(&dl);
+                    items.extend(default_rle(&rest));
+                    let h = with_items(&base, items);
+                    emit(st, &mut idx, true, &mut || {
+                        let mut c = dyn_case(toks, h.clone(), &plain, format!("list{} header starts with repeat-previous x{}", li, first))?;
+                        c.plain = None;
+                        Some(c)
+                    });
+                }
+            }
+            // only repeats: 16 x6 as often as it fits, then the real lengths (all zero prefix)
+            if lead >= 12 {
+                let k = lead / 6;
+                let mut items: Vec<(u8, u8)> = vec![(16, 6); k];
+                let mut rest = ll[k * 6..].to_vec();
+                rest.extend_from_slice(&dl);
+                items.extend(default_rle(&rest));
+                let h = with_items(&base, items);
+                emit(st, &mut idx, true, &mut || {
+                    let mut c = dyn_case(toks, h.clone(), &plain, format!("list{} header starts with {} repeat-previous items", li, k))?;
+                    c.plain = None;
+                    Some(c)
+                });
+            }
+        }
+
         // (f) malformed endings: the last run-length item overshoots HLIT+HDIST (invalid per RFC 1951;
         // zlib rejects it; the subject must answer Ok or Err). The codes themselves stay complete.
         for (padded, repeat) in [(true, false), (false, true)] {
@@ -778,7 +815,7 @@ pub fn e3_dynspace(ctx: &Ctx, name: &str, st: &mut Local, f: Sink) {
         }
     }
     let e = st.eng(name);
-    e.bound = "10 token lists x {incomplete distance codes (single code of length 1, none); last run overshooting HLIT+HDIST (malformed); coarse run-length policies (no runs, no zero runs, no repeat runs); HLIT,HDIST 5-value menus x HCLEN min..19; all complete length vectors over the used lit/len symbols, over 2-4 distance symbols, over the used code-length symbols; default RLE with every single and every pair of alternative run choices}".into();
+    e.bound = "10 token lists x {header starting with repeat-previous (code 16); incomplete distance codes (single code of length 1, none); last run overshooting HLIT+HDIST (malformed); coarse run-length policies (no runs, no zero runs, no repeat runs); HLIT,HDIST 5-value menus x HCLEN min..19; all complete length vectors over the used lit/len symbols, over 2-4 distance symbols, over the used code-length symbols; default RLE with every single and every pair of alternative run choices}".into();
     e.exhaustive = true;
 }
 
